@@ -123,6 +123,11 @@ def w_init(info):
                     continue
                 W.names.setdefault(id(obj), w_name_of(obj, byqual))
                 W.keep.append(obj)
+        for k, dotted in (info.get("ext_functions") or {}).items():
+            modname, _, fn = dotted.rpartition(".")
+            f = getattr(sys.modules.get(modname), fn, None)
+            if f is not None:
+                W.names.setdefault(id(f), f"x{k}")
     W.ready = True
 
 
@@ -155,7 +160,11 @@ def w_static(cls, name):
 def w_fname(obj):
     if obj is None:
         return "-"
-    return W.names.get(id(obj), "?obj")
+    n = W.names.get(id(obj))
+    if n is None:
+        n = w_name_of(obj, {})      # wrappers made by the hooks for classes created here
+        n = n if n.startswith("w.") else "?obj"
+    return n
 
 
 def w_hooked(cls, m):
@@ -232,7 +241,7 @@ def w_reflect(job):
                 else:
                     ran = w_fname(a)
             # nearest class whose body wrote the function that finally runs (owner by qualname)
-            mdd = ran[1:].split(".")[0] if ran.startswith("u") else "-"
+            mdd = ran if ran[:1] in ("u", "x") else "-"
             cols.append(f"{ML[m]}:{1 if hk else 0},{w_fname(a)},{w_fname(s)},{req},{ran},{mdd}")
             # ---- independent oracle (property statement on the implementation)
             if hk:
@@ -458,7 +467,10 @@ def g_canon(v, probe=3, depth=0):
     import itertools
     if depth > 8:
         return "<deep>"
-    if v is None or isinstance(v, (bool, int, float, str)):
+    if isinstance(v, str):
+        import re
+        return re.sub(r" at 0x[0-9a-fA-F]+", " at 0x", v)      # reprs of lazy objects embedded by str()/templates
+    if v is None or isinstance(v, (bool, int, float)):
         return v
     if isinstance(v, (list, tuple)):
         return [type(v).__name__] + [g_canon(x, probe, depth + 1) for x in v]
@@ -502,11 +514,11 @@ def g_exc(e):
 
 FUNCS = {
     "inc": lambda x: x + 1,
-    "str": lambda x: str(x),
+    "str": lambda x: __import__("re").sub(r" at 0x[0-9a-fA-F]+", " at 0x", str(x)),   # no addresses of lazy objects
     "tup": lambda *a, **k: tuple(a) + tuple(sorted(k.items())),
     "first": lambda *a, **k: (a + tuple(k.values()) + (None,))[0],
     "ident": lambda x: x,
-    "lst": lambda x: list(x),
+    "lst": lambda x: [x] if isinstance(x, str) else list(x),
     "neg": lambda x: -x,
     "pos": lambda x: isinstance(x, (int, float)) and x > 0,
     "isstr": lambda x: isinstance(x, str),
@@ -566,7 +578,7 @@ class GB:
             return self.b(s[1]).apply(FUNCS[s[2]])
         if k == "bind":
             alts = [self.b(x) for x in s[2]]
-            return self.b(s[1]).bind(lambda v, alts=alts: alts[(hash(repr(v)) if not isinstance(v, int) else v) % len(alts)])
+            return self.b(s[1]).bind(lambda v, alts=alts: alts[(v if isinstance(v, int) else len(FUNCS["str"](v))) % len(alts)])
         if k == "iter":
             return Iter(*[self.b(x) for x in s[1]])
         if k in ("list", "tuple", "set"):
@@ -1010,7 +1022,8 @@ class Rec:
             r = repr(o)
         except Exception:     # noqa: BLE001
             r = "?"
-        return f"{type(o).__name__} {r[:80]}"
+        import re
+        return f"{type(o).__name__} {re.sub(r' at 0x[0-9a-fA-F]+', '', r)[:80]}"
 
     def violations(self):
         out = []
@@ -1277,7 +1290,8 @@ def s_shapes():
         class DC:
             member: str = d
             other: int = Option("A")
-        return DC
+        # compare the members (the repr legitimately shows d's option keys)
+        return DC >> (lambda inst: (inst.member, inst.other))
     sh_["datasetclass_member"] = dsclass
     return sh_
 
@@ -1692,3 +1706,305 @@ def shrink_chain(spec, still_fails):
                 changed = True
                 break
     return base + "|" + "|".join(bodies)
+
+
+# ---------------------------------------------------------------------------------- the check
+def part1(info, use_model):
+    findings, cov = [], {}
+    res = run_worker({"job": "reflect", "info": info})
+    if "worker_error" in res:
+        raise Infra(res["worker_error"])
+    for p in res["problems"]:
+        findings.append(Finding(p["kind"], p["what"], p.get("payload", {"part": 1})))
+    cov = {"classes_reflected": res["classes"], "hooked_method_checks": res["checks"]}
+    if use_model:
+        lines = run_driver("drv_hook", [], args=["table"])
+        model = {}
+        for l in lines:
+            if l.startswith("ERR"):
+                findings.append(Finding("translator", "class table: " + l, {"part": 1}))
+                continue
+            model[l.split(" ", 1)[0]] = l
+        for cid, impl in res["lines"].items():
+            if model.get(cid) != impl:
+                findings.append(Finding("correspondence", f"class table/Hook model and the imported package disagree on class {impl.split(' ')[1]}",
+                                        {"part": 1, "model": model.get(cid), "impl": impl}))
+        for cid in model:
+            if cid not in res["lines"]:
+                findings.append(Finding("correspondence", f"table class {model[cid].split(' ')[1]} not found at run time", {"part": 1}))
+        cov["table_lines_compared"] = len(res["lines"])
+        cov["sample_table_line"] = next(iter(res["lines"].values()), "")
+    return findings, cov
+
+
+def part2(ctx, info, rng, n_random, use_model):
+    fixed, ids = chain_corpus(info)
+    specs = list(fixed) + [random_chain(rng, info, ids) for _ in range(n_random)]
+    res = run_worker({"job": "chains", "info": info, "chains": specs})["results"]
+    norm = [r["spec"] for r in res]
+    model_lines = run_driver("drv_hook", norm) if use_model else []
+    findings, stats = compare_chains(norm, res, model_lines, use_model)
+    # shrink the first disagreement of each kind
+    done = set()
+    for f in findings:
+        if f.payload.get("part") == 2 and f.kind not in done and "chain" in f.payload:
+            done.add(f.kind)
+            kind = f.kind
+
+            def still(spec, kind=kind):
+                r = run_worker({"job": "chains", "info": info, "chains": [spec]})["results"]
+                ml_ = run_driver("drv_hook", [r[0]["spec"]]) if use_model else []
+                fs, _ = compare_chains([r[0]["spec"]], r, ml_, use_model)
+                return any(x.kind == kind for x in fs)
+            try:
+                small = shrink_chain(f.payload["chain"], still)
+                if small != f.payload["chain"]:
+                    f.payload["original_chain"] = f.payload["chain"]
+                    f.payload["chain"] = small
+            except Infra:
+                pass
+    hist = {}
+    for s in norm:
+        for b in s.split("|")[1:]:
+            for t in b.split(",")[:4]:
+                k = t[0] if t[0] in "-dpfabt" else "?"
+                hist[k] = hist.get(k, 0) + 1
+    nontrivial = len({s for s in norm if any(t[0] in "pfabt" or fl != "0000" for b in s.split("|")[1:]
+                                             for t, fl in [(x, b.split(",")[4]) for x in b.split(",")[:4]])})
+    cov = {"chains": len(norm), "chains_nontrivial": nontrivial, "chain_classes": stats["classes"],
+           "chain_token_histogram": hist, "chain_methods_premises_hold": stats["ok1"],
+           "chain_methods_premises_fail": stats["ok0"], "chain_oracle_checks": stats["oracle_checks"],
+           "chain_samples": norm[3:6]}
+    return findings, cov
+
+
+def part3(ctx, rng, n_random):
+    items = fixed_corpus() + random_items(rng, n_random)
+    findings = []
+    res = run_worker({"job": "graphs", "items": items})["cases"]
+    byname = {it["name"]: it for it in items}
+    kinds, classes, outcomes = {}, set(), {}
+    ncases = 0
+    distinct = set()
+    for r in res:
+        ncases += 1
+        if r.get("harness_error"):
+            raise Infra(f"graph corpus item {r['name']} could not be run: {r['harness_error']}")
+        st = r["stats"]
+        for k, v in st.get("kinds", {}).items():
+            kinds[k] = kinds.get(k, 0) + v
+        classes.update(st.get("classes", []))
+        for o in st.get("outcomes", []):
+            outcomes[o] = outcomes.get(o, 0) + 1
+        if st.get("requests", 0) >= 5:
+            distinct.add(json.dumps([byname[r["name"]].get("spec", r["name"]), r["options"]], sort_keys=True))
+        if r["problems"]:
+            it = dict(byname[r["name"]])
+            it["options"] = [r["options"]]
+            findings.append(Finding("failing-input", f"graph {r['name']}: " + r["problems"][0],
+                                    {"part": 3, "item": it, "all_problems": r["problems"][:6]}))
+    ic = run_worker({"job": "intercept"})
+    for p in ic["problems"]:
+        findings.append(Finding("failing-input", p["what"], p["payload"]))
+    # shrink random graphs (replace sub-trees by constants) for the first finding
+    for f in findings[:1]:
+        it = f.payload.get("item")
+        if it and "spec" in it and it["name"].startswith("random"):
+            f.payload["item"] = shrink_graph(it)
+    cov = {"graph_cases": ncases, "graphs": len(items), "graph_cases_nontrivial": len(distinct),
+           "request_kinds_seen": kinds, "node_classes_executed": sorted(classes), "outcomes": outcomes,
+           "intercept_checks": ic["checks"]}
+    return findings, cov
+
+
+def shrink_graph(item):
+    def fails(it):
+        r = run_worker({"job": "graphs", "items": [it]})["cases"]
+        return any(c["problems"] for c in r)
+
+    def subtrees(s, path=()):
+        if isinstance(s, list):
+            if s and isinstance(s[0], str) and s[0] in SPEC_KINDS and path:
+                yield path
+            for i, x in enumerate(s):
+                yield from subtrees(x, path + (i,))
+        elif isinstance(s, dict):
+            for k, x in s.items():
+                yield from subtrees(x, path + (k,))
+
+    def replace(s, path, new):
+        if not path:
+            return new
+        if isinstance(s, list):
+            return [replace(x, path[1:], new) if i == path[0] else x for i, x in enumerate(s)]
+        return {k: (replace(x, path[1:], new) if k == path[0] else x) for k, x in s.items()}
+    budget = 30
+    cur = dict(item)
+    changed = True
+    while changed and budget > 0:
+        changed = False
+        for p in sorted(subtrees(cur["spec"]), key=len):
+            budget -= 1
+            if budget <= 0:
+                break
+            cand = dict(cur)
+            cand["spec"] = replace(cur["spec"], p, ["val", 0])
+            if cand["spec"] == cur["spec"]:
+                continue
+            try:
+                if fails(cand):
+                    cur = cand
+                    changed = True
+                    break
+            except Infra:
+                pass
+    return cur
+
+
+def part4(ctx, rng, n_random):
+    shapes = run_worker({"job": "subst", "cases": []})["shapes"]
+    cases = [{"shape": s, "options": o} for s in shapes for o in S_OPTIONS]
+    wrappable = [s for s in shapes if s not in ("switch_dispatch", "case_dispatch", "datasetclass_member", "map",
+                                                 "map_values_nested", "iter", "pipeline")]
+    for _ in range(n_random):
+        cases.append({"shape": rng.choice(shapes), "wrap": rng.choice(wrappable), "options": rng.choice(S_OPTIONS)})
+    res = run_worker({"job": "subst", "cases": cases})["cases"]
+    findings = []
+    dist = 0
+    for r in res:
+        if r.get("harness_error"):
+            raise Infra(f"substitution case {r['shape']} could not be run: {r['harness_error']}")
+        dist += 1 if r.get("distinguishes") else 0
+        if r["problems"]:
+            findings.append(Finding("failing-input", f"substitution [{r['shape']}" + (f" inside {r['wrap']}" if r.get("wrap") else "") + "]: " + r["problems"][0],
+                                    {"part": 4, "case": {"shape": r["shape"], "wrap": r.get("wrap"), "options": r["options"]}}))
+    cov = {"substitution_cases": len(res), "substitution_cases_where_value_matters": dist, "substitution_shapes": shapes}
+    return findings, cov
+
+
+def run_all(ctx, use_model, scale=1.0):
+    info, problems = translation()
+    rng = random.Random(ctx.seed)
+    big = 10 if ctx.tier == "thorough" else 1
+    findings = [Finding("translator", p["what"], {k: v for k, v in p.items() if k != "what"}) for p in problems]
+    coverage = {"translator_classes": len(info["classes"]), "translator_files": info["files"]}
+    f1, c1 = part1(info, use_model)
+    f2, c2 = part2(ctx, info, rng, int(1500 * big * scale), use_model)
+    f3, c3 = part3(ctx, rng, int(300 * big * scale))
+    f4, c4 = part4(ctx, rng, int(80 * big * scale))
+    for c in (c1, c2, c3, c4):
+        coverage.update(c)
+    findings += f1 + f2 + f3 + f4
+    for f in findings:
+        if f.kind == "failing-input":
+            f.known_id = classify(f.payload)
+    evaluations = c2["chains"] + c3["graph_cases"] + c4["substitution_cases"] + c1["hooked_method_checks"]
+    coverage.update({
+        "evaluations": evaluations,
+        "distinct_nontrivial": c2["chains_nontrivial"] + c3["graph_cases_nontrivial"] + c4["substitution_cases_where_value_matters"],
+        "rule": "chains: uses an alias/fake/outside function or a slot def; graphs: the recorded run issued >= 5 requests; "
+                "substitution: the graph's result with the real dataset differs from the substituted one",
+        "programs": c2["chains"] + c3["graphs"] + len(c4["substitution_shapes"]),
+        "disagreements_checked": c2["chain_classes"] * 4 + c1.get("table_lines_compared", 0),
+        "samples": c2["chain_samples"] + [c1.get("sample_table_line", "")],
+        "distribution": {"chain_tokens": c2["chain_token_histogram"], "request_kinds": c3["request_kinds_seen"],
+                         "graph_outcomes": c3["outcomes"], "node_classes": c3["node_classes_executed"]},
+        "model_compared": use_model,
+    })
+    return Exploration(findings, coverage)
+
+
+def classify(payload):
+    """Known-finding trigger predicate (none registered for C18)."""
+    kf = known_findings()
+    for k in kf.get("known", []):
+        if k.get("property") == "C18" and k.get("trigger") and k["trigger"] in json.dumps(payload):
+            return k.get("id")
+    return None
+
+
+def explore(ctx):
+    return run_all(ctx, use_model=True)
+
+
+def failing_input_search(ctx, why):
+    """Implementation-side oracles only (no Lean needed), larger budget."""
+    exp = run_all(ctx, use_model=False, scale=2.0)
+    return [f for f in exp.findings if f.kind == "failing-input"]
+
+
+def replay(ctx, payload):
+    info, problems = translation()
+    if lean_build(SPEC.drivers):          # the generated table is compiled into the driver
+        print("(drv_hook does not build on the current tree: model side skipped)")
+        try:
+            driver_path("drv_hook").unlink()
+        except OSError:
+            pass
+    part = payload.get("part")
+    part = int(part) if isinstance(part, str) and part.isdigit() else part
+    print(f"replaying C18 part {part}: {payload.get('what')}")
+    if problems:
+        print("translator problems on the current tree:")
+        for p in problems:
+            print("  -", p["what"])
+    if part == 1 or part is None:
+        fs, _ = part1(info, use_model=driver_path("drv_hook").exists())
+        fs = [f for f in fs if payload.get("cls") is None or payload.get("cls") in json.dumps(f.payload) or payload.get("cls") in f.what]
+        for f in fs:
+            print(f"  {f.kind}: {f.what}")
+            if "model" in f.payload:
+                print("    model:", f.payload["model"]); print("    impl :", f.payload["impl"])
+        bad = bool(fs) or (part is None and bool(problems))
+    elif part == 2:
+        spec = payload["chain"]
+        r = run_worker({"job": "chains", "info": info, "chains": [spec]})["results"]
+        use_model = driver_path("drv_hook").exists()
+        ml_ = run_driver("drv_hook", [r[0]["spec"]]) if use_model else []
+        print("  chain:", r[0]["spec"])
+        print("  impl :", "|".join(";".join(c) for c in r[0].get("obs", [])) or r[0].get("error"))
+        print("  model:", ml_[0] if ml_ else "(driver not built)")
+        fs, _ = compare_chains([r[0]["spec"]], r, ml_, use_model)
+        for f in fs:
+            print(f"  {f.kind}: {f.what}")
+        bad = bool(fs)
+    elif part == 3 and "item" in payload:
+        r = run_worker({"job": "graphs", "items": [payload["item"]], "verbose": True})["cases"]
+        bad = False
+        for c in r:
+            print("  options :", json.dumps(c["options"]))
+            print("  plain   :", json.dumps(c.get("plain"))[:600])
+            print("  recorded:", json.dumps(c.get("recorded"))[:600])
+            for p in c["problems"]:
+                print("  PROBLEM :", p)
+                bad = True
+    elif part == 3:
+        ic = run_worker({"job": "intercept"})
+        ps = [p for p in ic["problems"] if p["payload"].get("intercept") == payload.get("intercept")]
+        for p in ps:
+            print("  PROBLEM :", p["what"])
+        bad = bool(ps)
+    elif part == 4:
+        r = run_worker({"job": "subst", "cases": [payload["case"]]})["cases"][0]
+        print("  with substitution handler:", json.dumps(r.get("got"))[:400])
+        print("  same graph over Value    :", json.dumps(r.get("want"))[:400])
+        print("  plain (real dataset)     :", json.dumps(r.get("plain"))[:400])
+        for p in r["problems"]:
+            print("  PROBLEM :", p)
+        bad = bool(r["problems"])
+    else:
+        print("unknown payload")
+        return 2
+    print("verdict:", "STILL FAILS" if bad else "passes now")
+    return 1 if bad else 0
+
+
+if __name__ == "__main__":
+    if "--worker" in sys.argv:
+        sys.exit(worker_main())
+    try:
+        translation()          # regenerate lean/LabreaModel/Generated/ClassTable.lean before the Lean build
+    except Exception as e:     # noqa: BLE001
+        print(f"INFRA-ERROR property=C18: translator crashed: {type(e).__name__}: {e}")
+        sys.exit(2)
+    sys.exit(main_check(SPEC, explore, failing_input_search, replay))
